@@ -46,7 +46,7 @@ func genScript(rt *rapid.T, race bool) Script {
 	s.Modern = rapid.IntRange(0, 3).Draw(rt, "modern") == 0
 	n := rapid.IntRange(1, 30).Draw(rt, "n")
 	for i := 0; i < n; i++ {
-		st := Step{Kind: rapid.SampledFrom([]string{"ccall", "ccall", "scall", "nested", "notify", "snotify", "release", "release", "close", "close", "wait", "fail", "vanish", "late", "late", "latenotify", "sleep", "rejectnotes"}).Draw(rt, "kind")}
+		st := Step{Kind: rapid.SampledFrom([]string{"ccall", "ccall", "scall", "nested", "notify", "snotify", "release", "release", "close", "close", "wait", "fail", "vanish", "late", "late", "latenotify", "sleep", "rejectnotes", "halfvanish"}).Draw(rt, "kind")}
 		st.Side = rapid.SampledFrom([]string{"client", "server"}).Draw(rt, "side")
 		st.I = rapid.IntRange(0, 7).Draw(rt, "i")
 		if race {
@@ -373,6 +373,12 @@ func runInBubble(s Script) (res vt.Result) {
 			w.broken = true
 			w.mu.Unlock()
 			desc.WriteString("F" + st.Side[:1])
+		case "halfvanish": // the peer of st.Side closes only its output: st.Side reads EOF, its own writes are unaffected
+			ends[map[string]string{"client": "server", "server": "client"}[st.Side]].CloseWrite()
+			w.mu.Lock()
+			w.broken = true
+			w.mu.Unlock()
+			desc.WriteString("H" + st.Side[:1])
 		case "vanish": // the peer process is gone: its end of the pipe closes without any SDK Close
 			other := map[string]string{"client": "server", "server": "client"}[st.Side]
 			_ = other
@@ -501,7 +507,7 @@ func runInBubble(s Script) (res vt.Result) {
 	}
 	res.NonTrivial = nt
 	d := desc.String()
-	for _, c := range []struct{ sub, class string }{{"Kc", "client_close"}, {"Ks", "server_close"}, {"F", "write_failure"}, {"V", "peer_vanishes"}, {"L", "late_request"}, {"n", "nested_call"}, {"R", "notifications_rejected"}} {
+	for _, c := range []struct{ sub, class string }{{"Kc", "client_close"}, {"Ks", "server_close"}, {"F", "write_failure"}, {"V", "peer_vanishes"}, {"L", "late_request"}, {"n", "nested_call"}, {"R", "notifications_rejected"}, {"H", "peer_output_closed"}} {
 		if strings.Contains(d, c.sub) {
 			res.Class(c.class)
 		}
